@@ -78,6 +78,10 @@ def gen_cases(tier, seed):
                     continue
                 yield dict(cfg=cfg, m=m, sched=sched, start=(0, 5)[(m + seed) % 2],
                            fam=seed % 2, ik="int")
+                if len(sched) <= 1 and _sibling(cfg) is not None:
+                    # the same object was fitted before with a sibling configuration
+                    yield dict(cfg=cfg, m=m, sched=sched, start=0, fam=seed % 2, ik="int",
+                               reused=True)
                 for ik in ("period", "datetime"):
                     if cfg[0] in ("imputer", "acf", "pacf") or (
                             ik == "datetime" and (cfg[0] == "detrend" or cfg[0] == "ttfT")):
@@ -93,6 +97,32 @@ def _index(n, start, ik, shift=0):
     if ik == "datetime":
         return pd.date_range("2001-03-05", periods=n + shift, freq="D")[shift:]
     return pd.RangeIndex(start + shift, start + shift + n)
+
+
+def _sibling(cfg):
+    """parameters of a sibling configuration of the same class (for reuse histories)"""
+    k = cfg[0]
+    if k == "opt":
+        return {"passthrough": not cfg[2]}
+    if k in ("deseason", "cdeseason"):
+        return {"sp": 2 if cfg[1] != 2 else 3,
+                "model": "additive" if cfg[2] != "additive" else "multiplicative"}
+    if k == "boxcox":
+        return {"method": "pearsonr" if cfg[1] == "mle" else "mle"}
+    if k == "detrend":
+        return {"forecaster__degree": 3 - cfg[1]}
+    return None
+
+
+def _own_params(cfg):
+    k = cfg[0]
+    if k == "opt":
+        return {"passthrough": cfg[2]}
+    if k in ("deseason", "cdeseason"):
+        return {"sp": cfg[1], "model": cfg[2]}
+    if k == "boxcox":
+        return {"method": cfg[1]}
+    return {"forecaster__degree": cfg[1]}
 
 
 def _series(n, fam, start, ik="int", shift=0):
@@ -156,18 +186,29 @@ def _evaluate(res, tag, cfg, t, t7, z, z7, m, comp_ref, stage):
     minlen = _minlen(cfg)
     pos = {lab: i for i, lab in enumerate(z.index)}
     pos7 = {lab: i for i, lab in enumerate(z7.index)}
+    GAPS = [0, 2, 3, 6, 9]  # as many points as the longest contiguous stretch of that start
+    gapped_ok = cfg[0] in ("deseason", "cdeseason", "log", "boxcox", "std", "minmax", "opt",
+                           "cos")
+    stretches = []
     for a in range(0, m + 5):
         for ln in range(max(1, minlen), max(6, minlen + 3)):
-            if a + ln > len(z):
-                continue
-            x, x7 = z.iloc[a:a + ln], z7.iloc[a:a + ln]
+            if a + ln <= len(z):
+                stretches.append((a, ln, None))
+        if gapped_ok and a + GAPS[-1] < len(z):
+            # same start and same number of points as the contiguous stretch (a, 5), but with
+            # gaps: evaluated right after it
+            stretches.append((a, 5, [a + g for g in GAPS]))
+    for a, ln, sel in stretches:
+        if True:
+            x, x7 = (z.iloc[a:a + ln], z7.iloc[a:a + ln]) if sel is None else \
+                (z.iloc[sel], z7.iloc[sel])
             if cfg[0] == "imputer" and ln >= 3:
                 x, x7 = x.copy(), x7.copy()
                 x.iloc[1] = np.nan
                 x7.iloc[1] = np.nan
             res.transitions += 2
             o, o7 = call(t.transform, x.copy()), call(t7.transform, x7.copy())
-            H = dict(stage=stage, a=a, len=ln)
+            H = dict(stage=stage, a=a, len=ln, gapped=sel is not None)
             if not o.ok or not o7.ok:
                 if o.ok != o7.ok:
                     res.violate(tag + ":shift:raises", "transform raises for one of the "
@@ -241,6 +282,12 @@ def run_case(case):
     z = _series(m + 12, case["fam"], start, ik)
     z7 = _series(m + 12, case["fam"], start, ik, shift=7)
     t, t7, t2 = _build(cfg), _build(cfg), _build(cfg)
+    if case.get("reused"):
+        tag += ":reused"
+        for obj, zz in ((t, z), (t7, z7)):
+            obj.set_params(**_sibling(cfg))
+            call(lambda: obj.fit(zz.iloc[2:m + 1].copy()).transform(zz.iloc[1:7].copy()))
+            obj.set_params(**_own_params(cfg))
     is_ttf = cfg[0] == "ttfT"
     f = call(lambda: (t.fit(z.iloc[:m].copy()), t7.fit(z7.iloc[:m].copy())))
     res.transitions += 2
@@ -282,6 +329,6 @@ def run_case(case):
         res.states += 1
         if _evaluate(res, tag, cfg, t, t7, z, z7, m, comp_ref, "update%d" % (j + 1)):
             return res
-    res.nt((str(cfg), m, str(sched), ik))
+    res.nt((str(cfg), m, str(sched), ik, bool(case.get("reused"))))
     res.outcome(tag)
     return res
